@@ -40,8 +40,8 @@ CACHE_OPS = {"clear", "clear_all_space_values", "del_item", "clear_items"}
 
 def plan(tier):
     if tier == "quick":
-        return {"shards": 8, "examples": 120, "wall": 85}
-    return {"shards": 16, "examples": 1500, "wall": 2400}
+        return {"shards": 8, "examples": 300, "wall": 110}
+    return {"shards": 16, "examples": 3000, "wall": 3000}
 
 
 @st.composite
